@@ -447,6 +447,32 @@ def more_format(ctx, b, label, fmt):
             ctx.compare(rop, norm_read(got), norm_read(m), dict(replay, variant=variant))
 
 
+def cartesian_order(pb, text):
+    """the order in which Python iterated the set of cartesian letters of each element, as a table from the letters in insertion
+    order to the printed order (exact for any hash seed: the k-th `cartesian` line of the text belongs to the k-th element that
+    has cartesian shells)"""
+    from basis_set_exchange import lut
+    ins = []
+    for el in pb['elements'].values():
+        letters = []
+        for sh in el.get('electron_shells', []):
+            if sh['function_type'] == 'gto_cartesian':
+                for am in sh['angular_momentum']:
+                    c = lut.amint_to_char([am])
+                    if c not in letters:
+                        letters.append(c)
+        if letters:
+            ins.append(letters)
+    outs = [line.split()[1:] for line in text.splitlines() if line.lower().startswith('cartesian ')]
+    if len(ins) != len(outs):
+        return []
+    tab = []
+    for i, o in zip(ins, outs):
+        if [i, o] not in tab and sorted(i) == sorted(o):
+            tab.append([i, o])
+    return tab
+
+
 def molcas_layout(ctx, b, label):
     """molcas_library (whole file) and molcas (inline; the reader of the library form cannot read it) against
     coq/Model/Molcas.v + MolcasEcp.v.  Model inputs taken from the implementation: the normalised shells, the first-author and
@@ -477,10 +503,7 @@ def molcas_layout(ctx, b, label):
         w = impl.call(writers.write_formatted_basis_str, copy.deepcopy(b), fmt)
         if w[0] != 'ok' or len(w[1]) > 200000:
             continue
-        order = []
-        for line in w[1].splitlines():
-            if line.startswith('Cartesian '):
-                order += [x for x in line.split()[1:] if x not in order]
+        order = cartesian_order(pb[1], w[1])
         replay = {'kind': fmt + '-layout', 'label': label, 'input': b if len(str(b)) < 15000 else None}
         ctx.case((label, fmt + '-layout'), True, fmt + '-layout')
         if fmt == 'molcas_library':
